@@ -54,7 +54,7 @@ def make_source(r, i):
     if c < 6:
         return workloads.faulted(r, docmodel.render(r, size="small"))[0]
     if c < 8:
-        return noisy.text_of(noisy.gen(r, 20), nl=r.choice(["\n", "\r\n"]))
+        return noisy.text_of(noisy.gen_any(r, 20), nl=r.choice(["\n", "\r\n"]))
     if c == 8:
         return workloads.structured_hostile(r)
     return r.choice(["", "# only a comment\n", "Feature: f\n", "Feature: f\n  Scenario Outline: o\n    And <a>\n    Examples:\n      | a |\n      | 1 |\n"])
